@@ -108,10 +108,10 @@ func ceiling(s *slip.Scope, f slip.Object, args slip.List, depth int) slip.Value
 		bi, acc := quo.Int(nil)
 		switch acc {
 		case big.Exact:
-			q = (*slip.Bignum)(bi)
+			q = slip.IntegerFromBig(bi)
 			r = (*slip.LongFloat)(big.NewFloat(0.0))
 		case big.Below:
-			q = (*slip.Bignum)(bi.Add(bi, big.NewInt(1)))
+			q = slip.IntegerFromBig(bi.Add(bi, big.NewInt(1)))
 			var (
 				zq big.Float
 				zp big.Float
@@ -121,7 +121,7 @@ func ceiling(s *slip.Scope, f slip.Object, args slip.List, depth int) slip.Value
 			_ = zp.Mul(&zq, (*big.Float)(div.(*slip.LongFloat)))
 			r = (*slip.LongFloat)(zr.Sub((*big.Float)(tn), &zp))
 		case big.Above:
-			q = (*slip.Bignum)(bi)
+			q = slip.IntegerFromBig(bi)
 			var (
 				zp big.Float
 				zr big.Float
@@ -139,28 +139,28 @@ func ceiling(s *slip.Scope, f slip.Object, args slip.List, depth int) slip.Value
 		d := (*big.Int)(div.(*slip.Bignum))
 		switch zr.Sign() {
 		case 0:
-			q = (*slip.Bignum)(&zq)
-			r = (*slip.Bignum)(&zr)
+			q = slip.IntegerFromBig(&zq)
+			r = slip.IntegerFromBig(&zr)
 		case -1:
 			if d.Sign() == 1 {
-				q = (*slip.Bignum)(&zq)
-				r = (*slip.Bignum)(&zr)
+				q = slip.IntegerFromBig(&zq)
+				r = slip.IntegerFromBig(&zr)
 			} else {
 				_ = zq.Add(&zq, big.NewInt(1))
-				q = (*slip.Bignum)(&zq)
+				q = slip.IntegerFromBig(&zq)
 				var zp big.Int
 				_ = zp.Mul(&zq, d)
-				r = (*slip.Bignum)(zr.Sub((*big.Int)(tn), &zp))
+				r = slip.IntegerFromBig(zr.Sub((*big.Int)(tn), &zp))
 			}
 		case 1:
 			if d.Sign() == 1 {
-				q = (*slip.Bignum)(zq.Add(&zq, big.NewInt(1)))
+				q = slip.IntegerFromBig(zq.Add(&zq, big.NewInt(1)))
 				var zp big.Int
 				_ = zp.Mul(&zq, d)
-				r = (*slip.Bignum)(zr.Sub((*big.Int)(tn), &zp))
+				r = slip.IntegerFromBig(zr.Sub((*big.Int)(tn), &zp))
 			} else {
-				q = (*slip.Bignum)(&zq)
-				r = (*slip.Bignum)(&zr)
+				q = slip.IntegerFromBig(&zq)
+				r = slip.IntegerFromBig(&zr)
 			}
 		}
 	case *slip.Ratio:
@@ -179,26 +179,26 @@ func ceiling(s *slip.Scope, f slip.Object, args slip.List, depth int) slip.Value
 		d := (*big.Rat)(div.(*slip.Ratio))
 		switch zr.Sign() {
 		case 0:
-			q = (*slip.Bignum)(&bi)
+			q = slip.IntegerFromBig(&bi)
 			r = slip.Fixnum(0)
 		case -1:
 			if d.Sign() == 1 {
-				q = (*slip.Bignum)(&bi)
+				q = slip.IntegerFromBig(&bi)
 				r = (*slip.Ratio)(&zr)
 			} else {
-				q = (*slip.Bignum)(bi.Add(&bi, big.NewInt(1)))
+				q = slip.IntegerFromBig(bi.Add(&bi, big.NewInt(1)))
 				_ = zb.SetInt(&bi)
 				_ = zp.Mul(&zb, (*big.Rat)(div.(*slip.Ratio)))
 				r = (*slip.Ratio)(zr.Sub((*big.Rat)(tn), &zp))
 			}
 		case 1:
 			if d.Sign() == 1 {
-				q = (*slip.Bignum)(bi.Add(&bi, big.NewInt(1)))
+				q = slip.IntegerFromBig(bi.Add(&bi, big.NewInt(1)))
 				_ = zb.SetInt(&bi)
 				_ = zp.Mul(&zb, (*big.Rat)(div.(*slip.Ratio)))
 				r = (*slip.Ratio)(zr.Sub((*big.Rat)(tn), &zp))
 			} else {
-				q = (*slip.Bignum)(&bi)
+				q = slip.IntegerFromBig(&bi)
 				r = (*slip.Ratio)(&zr)
 			}
 		}
